@@ -44,7 +44,7 @@ theorem li_next (T : List Nat) (w : Win) (hs : w.start ≤ w.input.length) (h : 
   simp only [Win.prims]
   split <;> exact this
 
-theorem winWholeSim' (T : List Nat) : Sim Win.prims Whole.prims (WR' T) (WRp' T) (WRm' T) where
+theorem winWholeSim' (T : List Nat) : PrimSim Win.prims Whole.prims (WR' T) (WRp' T) (WRm' T) where
   rp_r := fun _ _ h => ⟨h.1.1, h.2⟩
   rm_r := fun _ _ h => ⟨h.1.1, h.2⟩
   next := fun w h hr => ⟨(wr_next w h hr.1).1, (wr_next w h hr.1).2, li_next T w (by have := hr.1.1; have := hr.1.2.1; omega) hr.2⟩
